@@ -33,6 +33,9 @@ META = {
 
 
 def check(ctx):
+    from . import shared as _sh0
+
+    ctx.run(lambda c_: _sh0.zip_drops_item(c_, list(c_.repo.module("gaftools.cli.realign", "R11.0").funcs.values()), "R11.0"))
     m = rc.build(ctx, "R11")
     pf = m.parent
     ctx.require_count("R11.1", len(m.loops), 1, pf.where(), "collection loops (while loop reading the result queue)")
